@@ -767,3 +767,15 @@ def run(ctx: lib.Ctx) -> None:
             rep = {'self': addr, 'program': to_json(prog), 'text': prog_text(prog), 'observed': to_json(obs), 'repro': repro(addr, prog)}
         rep['correspondence'] = 'C20/Interpreter(ticket programs) vs Michelson.Tickets.exec_from'
         ctx.violation('implementation no longer corresponds to the model the theorems are about', rep, found=False)
+
+
+def replay(ctx: lib.Ctx, doc: dict) -> bool:
+    """./check C20 --replay file : re-run the recorded program; True (exit 1) if the property still fails on it."""
+    if 'program' not in doc or 'self' not in doc:
+        return False
+    prog = from_json(doc['program'])
+    obs = run_impl(doc['self'], prog)
+    why = oracle(doc['self'], prog, obs)
+    print('observed now:', to_json(obs))
+    print('verdict     :', why or 'property holds on this input')
+    return bool(why)
